@@ -165,7 +165,8 @@ def finder(ctx, n):
         for kfac, want in ((1.0, 0.0), (2.0, 0.0), (0.37, 0.0), (-1.0, 180.0), (-2.5, 180.0)):
             got = numpy.concatenate([numpy.atleast_1d(L.angle(W, kfac * W)), numpy.atleast_1d(L.angle(W[0], kfac * W[:1])),
                                      [L.angle(W[2], kfac * W[2])]])
-            if not numpy.allclose(got, want, atol=1e-4):
+            # acos amplifies a cosine error d to sqrt(2 d): 1.4e-4 degrees were seen on skewed cells (d = 3e-12) in 20 000 cases
+            if not numpy.allclose(got, want, atol=5e-3):
                 probs.append("angle of parallel vectors (factor %g): %s, Euclidean %g" % (kfac, got.tolist(), want))
                 break
         H = numpy.array([[rng.randint(-4, 4) for _ in range(3)] for _ in range(4)], dtype=float)
